@@ -581,7 +581,8 @@ impl<'a> IVP for Overflow<'a> {
 fn overflow_family() {
     let mut k = 0;
     for method in ADAPTIVE {
-        for (which, c, y0, xend) in [(0usize, 1e308, 0.0, 10.0), (0, -1e308, 0.0, -10.0), (0, 1e308, 0.0, -10.0), (2, 1e306, 0.0, 100.0), (1, 1e3, 1.0, 10.0), (1, 700.0, 1.0, 2.0), (0, 1e300, 1.0, 1e9)] {
+        for (which, c, y0, xend) in [(0usize, 1e308, 0.0, 10.0), (0, -1e308, 0.0, -10.0), (0, 1e308, 0.0, -10.0), (2, 1e306, 0.0, 100.0), (1, 1e3, 1.0, 10.0), (1, 700.0, 1.0, 2.0), (0, 1e300, 1.0, 1e9),
+                                      (0, 1e300, 1e308, 8e7), (0, -1e300, -1e308, 1e8), (0, 1e300, 1e308, 1e9), (0, -1e300, 1e308, -1e8)] {
             for first in [None, Some(1.0), Some(0.25), Some(xend)] {
                 let o = { let mut o = Options::builder().method(method).build(); o.first_step = first.map(|h: f64| h.abs()); o };
                 let calls = std::cell::Cell::new(0usize);
